@@ -125,6 +125,51 @@ pub fn catch<T>(f: impl FnOnce() -> T + std::panic::UnwindSafe) -> Result<T, Str
     })
 }
 
+/// A worker thread that evaluates `f` with a time limit per call (C11: "compilation terminates").
+/// A call that exceeds the limit is abandoned (the thread keeps spinning until the process exits)
+/// and a fresh worker serves the next call.
+pub struct Timed<I: Send + 'static, O: Send + 'static> {
+    f: std::sync::Arc<dyn Fn(I) -> O + Send + Sync>,
+    chan: Option<(std::sync::mpsc::Sender<I>, std::sync::mpsc::Receiver<Result<O, String>>)>,
+    pub timeouts: usize,
+}
+impl<I: Send + 'static, O: Send + 'static> Timed<I, O> {
+    pub fn new(f: impl Fn(I) -> O + Send + Sync + 'static) -> Self {
+        Timed { f: std::sync::Arc::new(f), chan: None, timeouts: 0 }
+    }
+    /// `None` = no answer within `limit`
+    pub fn call(&mut self, input: I, limit: std::time::Duration) -> Option<Result<O, String>> {
+        if self.chan.is_none() {
+            let (tx, rx_in) = std::sync::mpsc::channel::<I>();
+            let (tx_out, rx) = std::sync::mpsc::channel();
+            let f = self.f.clone();
+            std::thread::Builder::new()
+                .stack_size(64 << 20)
+                .spawn(move || {
+                    while let Ok(i) = rx_in.recv() {
+                        let f = f.clone();
+                        let r = catch(std::panic::AssertUnwindSafe(move || f(i)));
+                        if tx_out.send(r).is_err() {
+                            break;
+                        }
+                    }
+                })
+                .expect("spawn worker");
+            self.chan = Some((tx, rx));
+        }
+        let (tx, rx) = self.chan.as_ref().unwrap();
+        tx.send(input).ok()?;
+        match rx.recv_timeout(limit) {
+            Ok(r) => Some(r),
+            Err(_) => {
+                self.timeouts += 1;
+                self.chan = None;
+                None
+            }
+        }
+    }
+}
+
 pub struct Counter(pub std::collections::BTreeMap<String, u64>);
 impl Counter {
     pub fn new() -> Self {
